@@ -145,28 +145,30 @@ AllCases == UNION {Cases(k) : k \in Configs}          \* constant: evaluated onc
 ASSUME NewCfgs \subseteq Configs
 
 (* ------------------------------------------------------------------ the system *)
-VARIABLES cfg,   \* registered signers of the sender account
-          cur,   \* the case handed to the miner and not yet shown to the validating node (NoCase: none)
-          acc    \* the miner packaged it
-vars == <<cfg, cur, acc>>
-Init == cfg \in Configs /\ cur = NoCase /\ acc = FALSE
-\* the transaction is handed to a mining node
-Offer(c) == /\ cur = NoCase /\ c.cfg = cfg
-            /\ cur' = c /\ acc' = Accepts(cfg, c) /\ UNCHANGED cfg
+VARIABLES cfg,    \* registered signers of the sender account
+          phase,  \* 0: idle | 1: a transaction was handed to the miner and its block is on its way to another node
+          cur,    \* the last case handed to the miner (history)
+          acc     \* the miner packaged it (history)
+vars == <<cfg, phase, cur, acc>>
+View == <<cfg, phase>>                    \* cur / acc only record the last step: nothing later depends on them
+Init == cfg \in Configs /\ phase = 0 /\ cur = NoCase /\ acc = FALSE
+\* the transaction is handed to a mining node; a packaged re-configuration replaces the account's signers
+Offer(c) == /\ phase = 0 /\ c.cfg = cfg
+            /\ phase' = 1 /\ cur' = c /\ acc' = Accepts(cfg, c)
+            /\ cfg' = IF Accepts(cfg, c) /\ c.kind = "signers" THEN c.ncfg ELSE cfg
 \* the block with it (the miner's, or one forged by a dishonest deputy if the miner refused) reaches another node
-Validate == /\ cur # NoCase
-            /\ cfg' = IF acc /\ cur.kind = "signers" THEN cur.ncfg ELSE cfg
-            /\ cur' = NoCase /\ acc' = FALSE
+Validate == phase = 1 /\ phase' = 0 /\ UNCHANGED <<cfg, cur, acc>>
 Next == \/ \E c \in AllCases : Offer(c)
         \/ Validate
 Spec == Init /\ [][Next]_vars
 
-(* ------------------------------------------------------------------ clauses (checked on every enumerated case) *)
-Pending == cur # NoCase
+(* ------------------------------------------------------------------ clauses
+   Each clause is a predicate on (signers registered BEFORE the step, the case, the miner's decision); it is checked
+   as an action property on every Offer step, i.e. on every enumerated case. *)
 \* only authorised transactions have an effect
-EffectOnlyIfAuthorized == Pending /\ acc => Authorized(cfg, cur)
+CEffectOnlyIfAuthorized(k, c, a) == a => Authorized(k, c)
 \* ... and the honest ones do (the check is not vacuous)
-CanonicalAccepted == Pending /\ Canonical(cfg, cur) /\ Authorized(cfg, cur) => acc
+CCanonicalAccepted(k, c, a) == Canonical(k, c) /\ Authorized(k, c) => a
 \* keep only the first signature of every signer
 RECURSIVE Dedup(_, _)
 Dedup(sigs, seen) == IF sigs = <<>> THEN <<>>
@@ -177,30 +179,45 @@ RECURSIVE ValidOnly(_, _, _)
 ValidOnly(scope, f, sigs) == IF sigs = <<>> THEN <<>>
                              ELSE (IF Counts(scope, f, Head(sigs)) THEN <<Head(sigs)>> ELSE <<>>) \o ValidOnly(scope, f, Tail(sigs))
 \* repeating a signer (same bytes or re-encoded) never turns a refused transaction into an accepted one
-RepeatNeverHelps ==
-  Pending /\ acc => Accepts(cfg, [cur EXCEPT !.sigs = Dedup(ValidOnly(SenderScope(cur), cur.f, cur.sigs), {}),
-                                             !.psigs = Dedup(ValidOnly(PayerScope, cur.f, cur.psigs), {}),
-                                             !.f = "none"])
+CRepeatNeverHelps(k, c, a) ==
+  a => Accepts(k, [c EXCEPT !.sigs = Dedup(ValidOnly(SenderScope(c), c.f, c.sigs), {}),
+                            !.psigs = Dedup(ValidOnly(PayerScope, c.f, c.psigs), {}),
+                            !.f = "none"])
 \* no acceptance rests on a foreign key
 NotForeign(s) == s.by # Foreign
-ForeignNeverHelps ==
-  Pending /\ acc => Accepts(cfg, [cur EXCEPT !.sigs = SelectSeq(cur.sigs, NotForeign), !.psigs = SelectSeq(cur.psigs, NotForeign)])
+CForeignNeverHelps(k, c, a) ==
+  a => Accepts(k, [c EXCEPT !.sigs = SelectSeq(c.sigs, NotForeign), !.psigs = SelectSeq(c.psigs, NotForeign)])
 \* removing a signature from a multi-signature transaction that is refused never makes it accepted
-RemovalNeverHelps ==
-  Pending /\ ~acc /\ cfg # <<>> => \A i \in 1..Len(cur.sigs) : ~Accepts(cfg, [cur EXCEPT !.sigs = Without(cur.sigs, i)])
+CRemovalNeverHelps(k, c, a) ==
+  ~a /\ k # <<>> => \A i \in 1..Len(c.sigs) : ~Accepts(k, [c EXCEPT !.sigs = Without(c.sigs, i)])
 \* the encoding of a signature is irrelevant for authorisation
-EncodingIrrelevant ==
-  Pending => (Authorized(cfg, cur) <=>
-              Authorized(cfg, [cur EXCEPT !.sigs = [i \in 1..Len(cur.sigs) |-> [cur.sigs[i] EXCEPT !.v = 0]],
-                                          !.psigs = [i \in 1..Len(cur.psigs) |-> [cur.psigs[i] EXCEPT !.v = 0]]]))
+CEncodingIrrelevant(k, c, a) ==
+  Authorized(k, c) <=> Authorized(k, [c EXCEPT !.sigs = [i \in 1..Len(c.sigs) |-> [c.sigs[i] EXCEPT !.v = 0]],
+                                               !.psigs = [i \in 1..Len(c.psigs) |-> [c.psigs[i] EXCEPT !.v = 0]]])
 \* a field changed after ALL sender signatures were made, within what they cover, makes the transaction ineffective
-TamperFalsifies ==
-  Pending /\ cur.f \in SenderScope(cur) /\ (\A i \in 1..Len(cur.sigs) : cur.sigs[i].old) => ~acc
+CTamperFalsifies(k, c, a) ==
+  c.f \in SenderScope(c) /\ (\A i \in 1..Len(c.sigs) : c.sigs[i].old) => ~a
 \* gas terms (or sender signatures) changed after ALL payer signatures were made: ineffective; no payer signature: ineffective
-PayerBinds ==
-  Pending /\ cur.pay = "payer" /\ (cur.psigs = <<>> \/ (cur.f \in PayerScope /\ \A i \in 1..Len(cur.psigs) : cur.psigs[i].old)) => ~acc
+CPayerBinds(k, c, a) ==
+  c.pay = "payer" /\ (c.psigs = <<>> \/ (c.f \in PayerScope /\ \A i \in 1..Len(c.psigs) : c.psigs[i].old)) => ~a
 \* the threshold is exact
-ThresholdExact ==
-  Pending /\ cfg # <<>> /\ cur.f = "none" /\ cur.pay = "self" /\ cur.box = "none" =>
-    (acc <=> SumW(cfg, Range([i \in 1..Len(cur.sigs) |-> cur.sigs[i].by])) >= Threshold)
+CThresholdExact(k, c, a) ==
+  k # <<>> /\ c.f = "none" /\ c.pay = "self" /\ c.box = "none" =>
+    (a <=> SumW(k, Range([i \in 1..Len(c.sigs) |-> c.sigs[i].by])) >= Threshold)
+\* a re-configuration takes effect exactly when it is packaged
+CReconf(k, c, a) == cfg' = IF a /\ c.kind = "signers" THEN c.ncfg ELSE k
+OnOffer(P(_, _, _)) == phase' = 1 => P(cfg, cur', acc')
+EffectOnlyIfAuthorized == [][OnOffer(CEffectOnlyIfAuthorized)]_vars
+CanonicalAccepted == [][OnOffer(CCanonicalAccepted)]_vars
+RepeatNeverHelps == [][OnOffer(CRepeatNeverHelps)]_vars
+ForeignNeverHelps == [][OnOffer(CForeignNeverHelps)]_vars
+RemovalNeverHelps == [][OnOffer(CRemovalNeverHelps)]_vars
+EncodingIrrelevant == [][OnOffer(CEncodingIrrelevant)]_vars
+TamperFalsifies == [][OnOffer(CTamperFalsifies)]_vars
+PayerBinds == [][OnOffer(CPayerBinds)]_vars
+ThresholdExact == [][OnOffer(CThresholdExact)]_vars
+Reconf == [][OnOffer(CReconf)]_vars
+\* vacuity guards for the enumeration itself: both outcomes and every slice occur
+SomeAccepted == \E c \in AllCases : Accepts(c.cfg, c)
+SomeRefused == \E c \in AllCases : ~Accepts(c.cfg, c)
 ====
